@@ -26,7 +26,7 @@ def _wit_deser(b):
     import bits.script
     r = bits.script.decode_script(b, witness=True)
     w, rest = r            # exactly what tx_deser does; a bare list (truncated stack) does not unpack ...
-    if not isinstance(rest, bytes):
+    if not isinstance(rest, (bytes, bytearray, memoryview)):
         raise ValueError("decode_script returned a bare list, no leftover")   # ... or unpacks two hex strings
     return ([bytes.fromhex(x) for x in w], rest)
 
@@ -59,18 +59,53 @@ IMPL = {
     "txin": lambda o, s, q: _bits().tx.txin(o, s, sequence=q),
     "txin_default": lambda o, s: _bits().tx.txin(o, s),          # default sequence argument
     "txout": lambda v, s: _bits().tx.txout(v, s),
-    "tx_raw": lambda i, o, v, l, w: _bits().tx.tx(list(i), list(o), version=v, locktime=l, script_witnesses=list(w)),
+    # (the very argument objects are passed through: common.py's @bytearray/@reuse/@reuselist variants and the
+    #  `twice` op below must reach the library with the caller's own buffers and lists)
+    "tx_raw": lambda i, o, v, l, w: _bits().tx.tx(i, o, version=v, locktime=l, script_witnesses=w),
     "tx_ser": lambda t: txgen.api_ser(txgen.norm_tx(t)),
     "txin_deser": _txin_deser,
     "txout_deser": _txout_deser,
     "tx_deser": lambda b: _bits().tx.tx_deser(b, include_raw=True),
     # the command line entry point (`bits tx`), run in-process through harness/cli.py
+    "twice": lambda name, kind, A, B: _twice(name, kind, A, B),
     "cli_tx_build": lambda t, style: txgen.cli_build(t, style),
     "cli_tx_decode": lambda b, fmt, style: txgen.cli_decode(b, fmt, style),
 }
 
 
+def _to_kind(v, kind):
+    if isinstance(v, bytes):
+        return bytearray(v) if kind == "bytearray" else v
+    if isinstance(v, (list, tuple)):
+        return [_to_kind(x, kind) for x in v]
+    return v
+
+
+def _plain(v):
+    if isinstance(v, (bytes, bytearray, memoryview)):
+        return bytes(v)
+    if isinstance(v, (list, tuple)):
+        return [_plain(x) for x in v]
+    return v
+
+
+def _twice(name, kind, A, B):
+    """A caller that KEEPS its argument objects (one outpoint buffer for an original transaction and its
+    replacement, one list of inputs for two transactions, one read buffer parsed twice): call IMPL[name] on A, then
+    on B, where every argument position with equal values in A and B is THE SAME OBJECT; report both results as they
+    are AFTER the second call and the argument objects as they are afterwards.  kind: bytes | bytearray."""
+    objs_a = [_to_kind(a, kind) for a in A]
+    objs_b = [objs_a[i] if (i < len(A) and B[i] == A[i] and isinstance(A[i], (bytes, list, tuple))) else _to_kind(B[i], kind)
+              for i in range(len(B))]
+    f = IMPL[name]
+    ra = f(*objs_a)
+    rb = f(*objs_b)
+    return (_plain(ra), _plain(rb), _plain(objs_a), _plain(objs_b))
+
+
 def model_call(c):
+    if c["op"] == "twice":
+        return "c05_twice", c["args"]
     """cli_* ops are compared with the EXISTING model ops (the extracted Coq model is the expected value)"""
     if c["op"] == "cli_tx_build":
         return "c05_tx_ser", [c["args"][0]]
@@ -326,9 +361,49 @@ def _cli_cases(rng, T):
     return out
 
 
+
+
+def _reuse_cases(rng, T):
+    """the same argument OBJECT used for two calls (sequence cases; replay = the two argument tuples)"""
+    out = []
+    R = rng.randbytes
+
+    def pairs():
+        op = R(36)
+        yield "txin", [op, R(rng.choice([0, 1, 107, 253])), rng.choice(txgen.SEQS)], [op, R(rng.choice([0, 2, 72, 252])), R(4)]
+        s = R(rng.choice([1, 25]))
+        yield "txin", [R(36), s, b"\xfd\xff\xff\xff"], [R(36), s, b"\xfd\xff\xff\xff"]
+        yield "txin_default", [op, R(3)], [op, R(rng.choice([0, 5, 253]))]
+        txid = R(32)
+        yield "outpoint", [txid, 0], [txid, rng.choice([1, 7, (1 << 32) - 1])]
+        spk = R(rng.choice([0, 22, 25, 253]))
+        yield "txout", [rng.randrange(1 << 40), spk], [rng.randrange(1 << 64), spk]
+        ins = [txgen.ref_txin(txgen.gen_txin(rng, rng.choice([0, 1, 5]))) for _ in range(rng.choice([1, 2]))]
+        outs = [txgen.ref_txout(txgen.gen_txout(rng, 3))]
+        wits = rng.choice([[], [txgen.ref_stack([R(2)]) for _ in ins]])
+        yield "tx_raw", [ins, outs, 1, 0, wits], [ins, [txgen.ref_txout(txgen.gen_txout(rng, 1))], 2, 101, wits]
+        yield "tx_raw", [ins, outs, 2, 7, wits], [ins, outs, 2, 7, wits]
+        items = [R(rng.choice([0, 1, 33, 253])) for _ in range(rng.choice([0, 1, 3]))]
+        yield "wit_ser", [items], [items]
+        buf = txgen.ref_txin(txgen.gen_txin(rng, 4)) + R(3)
+        yield "txin_deser", [buf], [buf]
+        buf = txgen.ref_txout(txgen.gen_txout(rng, 4)) + R(3)
+        yield "txout_deser", [buf], [buf]
+        buf = txgen.ref_cs(rng.choice([0, 252, 253, 65536])) + R(2)
+        yield "cs_dec", [buf], [buf]
+        buf = txgen.ref_stack([R(2), b"", R(3)]) + R(2)
+        yield "wit_deser", [buf], [buf]
+
+    for _ in range(12 if T else 2):
+        for name, A, B in pairs():
+            for kind in ("bytes", "bytearray"):
+                out.append(case("reuse-%s-%s" % (name, kind), "twice", name, kind, A, B))
+    return out
+
+
 def gen_cases(rng, tier):
     T = tier == "thorough"
-    return _cs_cases(rng, T) + _wit_cases(rng, T) + _tx_cases(rng, T) + _cli_cases(rng, T)
+    return _cs_cases(rng, T) + _wit_cases(rng, T) + _tx_cases(rng, T) + _cli_cases(rng, T) + _reuse_cases(rng, T)
 
 
 # ---------------------------------------------------------------------------------------------------
@@ -442,6 +517,28 @@ def _short(v):
     return s if len(s) < 120 else s[:120] + "..."
 
 
+def _ref_builder(name, args):
+    """reference bytes of a builder call from the developer reference (None: no statement)"""
+    try:
+        if name == "outpoint":
+            return args[0] + args[1].to_bytes(4, "little")
+        if name == "txin":
+            return args[0] + txgen.ref_var(args[1]) + args[2]
+        if name == "txin_default":
+            return args[0] + txgen.ref_var(args[1]) + b"\xff\xff\xff\xff"
+        if name == "txout":
+            return args[0].to_bytes(8, "little") + txgen.ref_var(args[1])
+        if name == "wit_ser":
+            return txgen.ref_stack(list(args[0]))
+        if name == "tx_raw":
+            ins, outs, v, lt, w = args
+            body = txgen.ref_cs(len(ins)) + b"".join(ins) + txgen.ref_cs(len(outs)) + b"".join(outs)
+            return v.to_bytes(4, "little") + (b"\x00\x01" if w else b"") + body + b"".join(w) + lt.to_bytes(4, "little")
+    except (OverflowError, AssertionError):
+        return None
+    return None
+
+
 def prop_oracle(c):
     import bits
     import bits.script
@@ -496,6 +593,19 @@ def prop_oracle(c):
         got = _wit_deser(ser + rest)
         if (list(got[0]), got[1]) != (items, rest):
             return "decode_script(script(items, witness=True) + rest, witness=True) != (items, rest)"
+        return None
+    if op == "twice":
+        name, kind, A, B = a
+        got = _twice(name, kind, A, B)
+        if got[2] != _plain(A) or got[3] != _plain(B):
+            return "%s() modified its caller's argument object in place (%s arguments)" % (name, kind)
+        for which, args, r in (("first", A, got[0]), ("second", B, got[1])):
+            want = _ref_builder(name, args)
+            if want is not None and r != want:
+                return "%s(): the %s result, read after both calls that share an argument object, is %s; the fields given serialise to %s" % (
+                    name, which, _short(r.hex() if isinstance(r, bytes) else r), _short(want.hex()))
+        if A == B and got[0] != got[1]:
+            return "%s() gives two different answers for the same arguments" % name
         return None
     if op == "cli_tx_build":
         t = txgen.norm_tx(a[0])
@@ -638,5 +748,7 @@ def coq_equation(c, mr):
 
 # ops whose answer must not depend on the concrete bytes-like type of their arguments (they agree on the pinned tree;
 # tools/bytearray_probe.py); common.py re-runs a sample of their cases with bytearray arguments
-BYTEARRAY_OPS = {'cs_dec', 'txout_deser', 'txin_default', 'outpoint', 'txout', 'tx_deser', 'txin_deser', 'txin'}
-MEMORYVIEW_OPS = {'tx_deser', 'txout', 'txin_deser', 'cs_dec', 'txout_deser'}
+BYTEARRAY_OPS = {'cs_dec', 'txout_deser', 'txin_default', 'outpoint', 'txout', 'tx_deser', 'txin_deser', 'txin', 'wit_deser'}
+MEMORYVIEW_OPS = {'tx_deser', 'txout', 'txin_deser', 'cs_dec', 'txout_deser', 'wit_deser'}
+# (txin / txin_default / outpoint raise TypeError for a memoryview first argument on the pinned tree; the list-taking
+#  builders tx_raw / wit_ser / twice are reached by the automatic @reuselist variant: not in NO_REUSELIST_OPS)
